@@ -1198,3 +1198,48 @@ def gen_psf_origin():
            f'def griddedSub : Int := {gc}\ndef griddedDen : Nat := {gd}\ndef imageSub : Int := {ic}\ndef imageDen : Nat := {idn}\n\n'
            'end PhotVerif.Gen.PsfOrigin\n')
     return 'PsfOrigin.lean', src1 + src2, out
+
+# ---------------------------------------------------------------- units of the ApertureStats statistics (C15)
+
+def gen_stats_unit_table():
+    """for every ApertureStats property computed by `_calculate_stats`: which power of the data unit it attaches (1, or 2 when the body
+    squares `unit` and passes it on), and whether `_calculate_stats` honours its `unit` argument"""
+    p = os.path.join(REPO, 'photutils/aperture/stats.py')
+    src = open(p).read()
+    t = ast.parse(src)
+    cls = next(c for c in t.body if isinstance(c, ast.ClassDef) and c.name == 'ApertureStats')
+    rows = []
+    for m in cls.body:
+        if not isinstance(m, ast.FunctionDef) or m.name == '_calculate_stats':
+            continue
+        calls = [c for c in ast.walk(m) if isinstance(c, ast.Call) and isinstance(c.func, ast.Attribute) and c.func.attr == '_calculate_stats']
+        if not calls:
+            continue
+        power = 1
+        for c in calls:
+            kw = {k.arg: k.value for k in c.keywords}
+            if 'unit' in kw or len(c.args) > 1:
+                uexp = kw.get('unit', c.args[1] if len(c.args) > 1 else None)
+                if not isinstance(uexp, ast.Name):
+                    raise Unsupported(f'ApertureStats.{m.name}: unexpected unit argument {ast.unparse(uexp)}')
+                nm = uexp.id
+                init = [x for x in ast.walk(m) if isinstance(x, ast.Assign) and any(isinstance(tg, ast.Name) and tg.id == nm for tg in x.targets)]
+                sq = [x for x in ast.walk(m) if isinstance(x, ast.AugAssign) and isinstance(x.op, ast.Pow) and isinstance(x.target, ast.Name)
+                      and x.target.id == nm and isinstance(x.value, ast.Constant)]
+                if len(init) != 1 or ast.unparse(init[0].value) != 'self._data_unit' or len(sq) != 1:
+                    raise Unsupported(f'ApertureStats.{m.name}: the unit passed to _calculate_stats is not `self._data_unit ** k`')
+                power = int(sq[0].value.value)
+        rows.append((m.name, power))
+    cs = next(m for m in cls.body if isinstance(m, ast.FunctionDef) and m.name == '_calculate_stats')
+    txt = [ast.unparse(x) for x in cs.body if not (isinstance(x, ast.Expr) and isinstance(x.value, ast.Constant))]
+    honours = (len(txt) == 4 and txt[1].replace('\n', ' ').replace('    ', ' ') == 'if unit is None:  unit = self._data_unit'
+               and txt[2].replace('\n', ' ').replace('    ', ' ') == 'if unit is not None:  result <<= unit' and txt[3] == 'return result')
+    out = ('/- GENERATED by tools/extract_tables.py from photutils/aperture/stats.py '
+           f'(sha256/16 {sha(src)}). DO NOT EDIT. -/\n'
+           'import PhotVerif.Model.Prelude\nnamespace PhotVerif.Gen.StatsUnits\n\n'
+           '/-- (ApertureStats property computed through `_calculate_stats`, power of the data unit it asks for) -/\n'
+           'def rows : List (String × Nat) := [' + ', '.join(f'("{a}", {b_})' for a, b_ in rows) + ']\n\n'
+           '/-- `_calculate_stats(stat_func, unit=None)` attaches `unit` when given, the data unit otherwise, and nothing for unit-less data -/\n'
+           f'def calculateStatsHonoursUnit : Bool := {"true" if honours else "false"}\n\n'
+           'end PhotVerif.Gen.StatsUnits\n')
+    return 'StatsUnits.lean', src, out
